@@ -1,7 +1,8 @@
 """C16 / C09: digest primitives."""
 
 def _md(alg, unit, extra=None):
-    j = {"name": "%s_%s" % (alg, unit), "props": ["C16", "C09"] if unit == "final" else ["C16"],
+    # Update: "every message byte reaches the compression function, in position" is also what C03 needs of a primitive
+    j = {"name": "%s_%s" % (alg, unit), "props": ["C16", "C09"] if unit == "final" else (["C16", "C03"] if unit == "update" else ["C16"]),
          "functions": ["%s_%s" % (alg.upper(), {"init": "Init", "update": "Update", "final": "Final"}[unit])],
          "harness": "harness/digest_md.c", "defs": ["D_%s=1" % alg, "U_%s=1" % unit],
          "verif_src": ["models/strings.c"],
@@ -67,7 +68,7 @@ JOBS.append(j)
 
 SHA256_MAXLEN = 200
 def _sha256(unit):
-    j = {"name": "sha256_%s" % unit, "props": ["C16"],
+    j = {"name": "sha256_%s" % unit, "props": ["C16", "C03"] if unit == "update" else ["C16"],
          "functions": {"init": ["SHA256_Init"], "update": ["_SHA256_Update"], "final": ["_SHA256_Final", "SHA256_Pad", "cpu_to_be32_vect", "cpu_to_be64"]}[unit],
          "harness": "harness/digest_sha256.c", "defs": ["U_%s=1" % unit, "MAXLEN=%d" % SHA256_MAXLEN],
          "verif_src": ["models/strings.c"], "replace_calls": ["SHA256_Transform:transform_stub"],
@@ -91,7 +92,7 @@ JOBS += [_sha256(u) for u in ("init", "update", "final")]
 
 SHA512_MAXLEN = 260
 def _sha512(unit):
-    j = {"name": "sha512_%s" % unit, "props": ["C16", "C09"] if unit == "final" else ["C16"],
+    j = {"name": "sha512_%s" % unit, "props": ["C16", "C09"] if unit == "final" else (["C16", "C03"] if unit == "update" else ["C16"]),
          "functions": {"init": ["SHA512_Init"], "update": ["SHA512_Update"], "final": ["SHA512_Final", "SHA512_Pad", "cpu_to_be64_vect", "cpu_to_be64"]}[unit],
          "harness": "harness/digest_sha512.c", "defs": ["U_%s=1" % unit, "MAXLEN=%d" % SHA512_MAXLEN, "XV_BZERO_EVENTS=1"],
          "verif_src": ["models/strings.c"], "replace_calls": ["SHA512_Transform:transform_stub"],
@@ -117,7 +118,7 @@ JOBS[-2]["wip"] = True
 
 SHA1_MAXLEN = 200
 def _sha1(unit):
-    j = {"name": "sha1_%s" % unit, "props": ["C16", "C09"] if unit == "final" else ["C16"],
+    j = {"name": "sha1_%s" % unit, "props": ["C16", "C09"] if unit == "final" else (["C16", "C03"] if unit == "update" else ["C16"]),
          "functions": {"init": ["sha1_init_ctx"], "update": ["sha1_process_bytes"], "final": ["sha1_finish_ctx"]}[unit],
          "harness": "harness/digest_sha1.c", "defs": ["U_%s=1" % unit, "MAXLEN=%d" % SHA1_MAXLEN, "XV_BZERO_EVENTS=1"],
          "verif_src": ["models/strings.c"],
